@@ -283,11 +283,13 @@ def index_exact_jobs(tier):
     jobs = []
     for order in (("o", "d", "g"), ("d", "o", "g"), ("g", "d", "o")):
         for key in (("dict", {"d": "EUR"}), ("dict", {"o": "USA"}), ("dict", {"Destination": "USA"}), ("dict", {"d": "USA", "o": "EUR"}), ("dict", {"d": ["USA", "EUR"]}),
-                    ("item", "y"), ("tuple", ("x", "z")), ("item", "EUR")):
+                    ("item", "y"), ("tuple", ("x", "z")), ("item", "EUR"),
+                    # one fault per key is refused - and so are two faults together (an item of two dimensions next to an unknown one)
+                    ("tuple", ("EUR", "typo")), ("tuple", ("EUR", "y")), ("tuple", ("y", "typo")), ("tuple", ("typo", "EUR", "y"))):
             for op in ("read", "write"):
                 if op == "read" and isinstance(list(key[1].values())[0] if key[0] == "dict" else None, list):
                     continue
-                if op == "read" and key[0] == "tuple":
+                if op == "read" and key == ("tuple", ("x", "z")):
                     continue
                 jobs.append(("same-items", order, op, key))
     for order in (("n", "s"), ("s", "n")):
